@@ -21,6 +21,12 @@ structure Cls where
   /-- explicit base; `none` means the implicit root `Object` -/
   base : Option String := none
   body : Body := {}
+  /-- declared `abstract` -/
+  isAbstract : Bool := false
+  /-- own virtual methods without body -/
+  abstracts : List String := []
+  /-- own methods with a body (they discharge an inherited obligation of the same name) -/
+  impls : List String := []
 deriving Repr
 
 structure Fn where
@@ -46,9 +52,26 @@ def chainOK (cs : List Cls) : Nat → String → Bool
       | none => false
       | some c => chainOK cs fuel c.baseName
 
+/-- `validateAbstractness`, base first: the obligations a class still carries are its base's plus its own bodyless
+virtual methods, minus what it implements -/
+def required (cs : List Cls) : Nat → String → List String
+  | 0, _ => []
+  | fuel + 1, n =>
+    if n = "Object" then []
+    else match cs.find? (fun c => c.name == n) with
+      | none => []
+      | some c => ((required cs fuel c.baseName) ++ c.abstracts).filter (fun m => !c.impls.contains m)
+
+/-- `new n()` is allowed: the class exists, is not declared abstract and carries no obligation -/
+def instantiable (cs : List Cls) (n : String) : Bool :=
+  n == "Object" ||
+  match cs.find? (fun c => c.name == n) with
+  | none => false
+  | some c => !c.isAbstract && (required cs (cs.length + 1) n).isEmpty
+
 def bodyOK (p : Prog) (b : Body) : Bool :=
   b.calls.all (fun c => p.functions.any (fun g => g.name == c.1 && g.arity == c.2)) &&
-  b.news.all (fun n => n == "Object" || p.classes.any (fun c => c.name == n))
+  b.news.all (fun n => instantiable p.classes n)
 
 def accept (p : Prog) : Bool :=
   decide ((p.classes.map (·.name)).Nodup) &&
